@@ -50,11 +50,16 @@ Fixpoint encode_any (a : any) : option (list N) :=
       end
   end.
 
-(* decode: fuel bounds the nesting depth + element count; [length bs + 1] always suffices *)
-Fixpoint decode_any (fuel : nat) (bs : list N) : res any :=
+(* Any::MAX_DECODE_DEPTH *)
+Definition ANY_MAX_DEPTH : N := C_ANY_MAX_DECODE_DEPTH.
+
+(* decode: fuel bounds the nesting depth + element count; [length bs + 1] always suffices.
+   [depth] is the current nesting level: deeper than ANY_MAX_DEPTH is rejected. *)
+Fixpoint decode_any_at (fuel : nat) (depth : N) (bs : list N) : res any :=
   match fuel with
   | O => Fuel
   | S f =>
+    if ANY_MAX_DEPTH <? depth then Err UnexpectedValue else
     let* (tag, rest) := read_u8 bs in
     if tag =? ANY_DEC_UNDEFINED then Ok AUndefined rest
     else if tag =? ANY_DEC_NULL then Ok ANull rest
@@ -73,7 +78,7 @@ Fixpoint decode_any (fuel : nat) (bs : list N) : res any :=
          | O => Fuel
          | S k' =>
            let* (key, r1) := read_string bs in
-           let* (v, r2) := decode_any f r1 in
+           let* (v, r2) := decode_any_at f (depth + 1) r1 in
            entries k' (n - 1) r2 ((key, v) :: acc)
          end) f len rest1 []
     else if tag =? ANY_DEC_ARRAY then
@@ -83,9 +88,10 @@ Fixpoint decode_any (fuel : nat) (bs : list N) : res any :=
          match k with
          | O => Fuel
          | S k' =>
-           let* (v, r2) := decode_any f bs in
+           let* (v, r2) := decode_any_at f (depth + 1) bs in
            elems k' (n - 1) r2 (v :: acc)
          end) f len rest1 []
     else if tag =? ANY_DEC_BUFFER then rmap ABuffer (read_buf rest)
     else Err UnexpectedValue
   end.
+Definition decode_any (fuel : nat) (bs : list N) : res any := decode_any_at fuel 0 bs.
